@@ -30,7 +30,7 @@ PROPERTIES = ["C20"]
 PID = "C20"
 SPEC_DIR = os.path.join(vlib.SPEC, "mmanager")
 
-VERDICT_PROPS = ["AtMostOneReply", "SendsAtMostOne", "AnnounceOK", "QuiescentAllReplied", "NoHang"]
+VERDICT_PROPS = ["AtMostOneReply", "SendsAtMostOne", "AnnounceOK", "AnnounceToHeld", "QuiescentAllReplied", "NoHang"]
 
 ASSUMPTIONS = [
     "a reply is what the submitter receives: the return of Service.Submit; replies as written by the manager are "
@@ -47,8 +47,8 @@ ASSUMPTIONS = [
 TIERS = {
     "quick": dict(mc="MC_quick.cfg", live="MC_live.cfg", gen="Gen_quick.cfg", maxlen=12, walks=250, walklen=14,
                   allpaths=0, free_runs=60, free_ops=14, sim=None, step_ms=5000, hang_ms=2500),
-    "thorough": dict(mc="MC_thorough.cfg", live="MC_live.cfg", gen="Gen_thorough.cfg", maxlen=16, walks=6000, walklen=20,
-                     allpaths=4, free_runs=1500, free_ops=24, sim=dict(num=30000, depth=40), step_ms=8000, hang_ms=4000),
+    "thorough": dict(mc="MC_thorough.cfg", live="MC_live.cfg", gen="Gen_thorough.cfg", maxlen=16, walks=4000, walklen=20,
+                     allpaths=3, free_runs=1500, free_ops=24, sim=dict(num=30000, depth=40), step_ms=8000, hang_ms=4000),
 }
 
 
@@ -108,58 +108,64 @@ def build_scripts(edges, rnd, maxlen, walks, walklen, allpaths):
             v = u
         return p[::-1]
 
+    dist = {init: 0}
+    for v in pred:
+        d, x = 0, v
+        while pred[x] is not None and x not in dist:
+            x = pred[x][0]
+            d += 1
+        dist[v] = d + dist[x]
     uncovered = set((f, a, t) for f in adj for a, t in adj[f] if f in pred)
     total = len(uncovered)
+    order = sorted(uncovered, key=lambda e: (dist[e[0]], e))   # nearest to init first
+    nxt = 0
+    has_unc = {}
+    for e in uncovered:
+        has_unc[e[0]] = has_unc.get(e[0], 0) + 1
+
+    def cover(e):
+        if e in uncovered:
+            uncovered.discard(e)
+            has_unc[e[0]] -= 1
+
     scripts = []
     while uncovered:
-        # start: the uncovered edge nearest to init
-        e0 = min(uncovered, key=lambda e: (len(path_to(e[0])), e))
+        while order[nxt] not in uncovered:
+            nxt += 1
+        e0 = order[nxt]
         path = path_to(e0[0]) + [e0]
         for e in path:
-            uncovered.discard(e)
+            cover(e)
         cur = e0[2]
         while len(path) < maxlen:
             cand = [(cur, a, t) for a, t in adj[cur] if (cur, a, t) in uncovered]
             if cand:
                 e = rnd.choice(cand)
-            else:
-                # nearest state with an uncovered out-edge, within the remaining length
-                seen = {cur: None}
-                q = deque([cur])
-                goal = None
-                while q and goal is None:
-                    u = q.popleft()
-                    d = 0
-                    x = u
-                    while seen[x] is not None:
-                        x = seen[x][0]
-                        d += 1
-                    if d >= maxlen - len(path) - 1:
-                        continue
-                    for a, v in adj[u]:
-                        if v in seen:
-                            continue
-                        seen[v] = (u, a)
-                        if any((v, a2, t2) in uncovered for a2, t2 in adj[v]):
-                            goal = v
-                            break
-                        q.append(v)
-                if goal is None:
-                    break
-                seg = []
-                x = goal
-                while seen[x] is not None:
-                    u, a = seen[x]
-                    seg.append((u, a, x))
-                    x = u
-                for e in seg[::-1]:
-                    path.append(e)
-                    uncovered.discard(e)
-                cur = goal
+                path.append(e)
+                cover(e)
+                cur = e[2]
                 continue
-            path.append(e)
-            uncovered.discard(e)
-            cur = e[2]
+            # a state with an uncovered out-edge at most two steps away, within the remaining length
+            seg = None
+            if len(path) + 2 <= maxlen:
+                for a, v in adj[cur]:
+                    if has_unc.get(v, 0) > 0:
+                        seg = [(cur, a, v)]
+                        break
+            if seg is None and len(path) + 3 <= maxlen:
+                for a, v in adj[cur]:
+                    for a2, v2 in adj[v]:
+                        if has_unc.get(v2, 0) > 0:
+                            seg = [(cur, a, v), (v, a2, v2)]
+                            break
+                    if seg:
+                        break
+            if seg is None:
+                break
+            for e in seg:
+                path.append(e)
+                cover(e)
+            cur = seg[-1][2]
         scripts.append([e[1] for e in path])
     cover_n = len(scripts)
     # seeded random walks (deeper, repeated visits)
@@ -182,9 +188,19 @@ def build_scripts(edges, rnd, maxlen, walks, walklen, allpaths):
                 continue
             for a, t in adj[cur]:
                 stack.append((t, p + [a]))
+    # a third of the scripts that begin by winning leases hold them at start-up instead (fetchExistingLeases)
+    n_pre = 0
+    for i, sc in enumerate(scripts):
+        if sc and sc[0][0] == "LeaseWon" and rnd.randrange(3) == 0:
+            k = 0
+            while k < len(sc) and sc[k][0] == "LeaseWon":
+                k += 1
+            k = rnd.randint(1, k)
+            scripts[i] = [("PreLease", a[1]) for a in sc[:k]] + sc[k:]
+            n_pre += 1
     classes = set(guard_class(f, a, t) for f in adj for a, t in adj[f] if f in pred)
     return scripts, dict(edges=total, states=len(pred), cover_scripts=cover_n, walks=walks, allpaths_scripts=n_all,
-                         guard_classes=len(classes))
+                         guard_classes=len(classes), prelease_scripts=n_pre)
 
 
 def write_scripts(path, scripts, start=0):
@@ -260,9 +276,17 @@ def replay(vh, scripts, work, tag, step_ms, hang_ms, shards=None, start=0):
 # ---------------------------------------------------------------------------------------------------------
 # J3
 
-_RE_DONE = re.compile(r'<<"TRACE-DONE", (\d+), (\d+), (\{.*\})>>')
-_RE_VIOL = re.compile(r'<<(\d+), "(\w+)">>')
-_RE_DRIFT = re.compile(r'<<"DRIFT", (\d+), (-?\d+), (\d+), "(\w+)", (-?\d+)>>')
+def _printed(out, prefix):
+    """Values printed by TLC as  "<prefix> <json>"  (a TLA+ string, printed with escapes, on one line)."""
+    res = []
+    for line in out.splitlines():
+        line = line.strip()
+        if line.startswith('"' + prefix + ' '):
+            try:
+                res.append(json.loads(json.loads(line)[len(prefix) + 1:]))
+            except ValueError:
+                pass
+    return res
 
 
 def validate(recs, work, tag, max_submit=None):
@@ -286,16 +310,14 @@ def validate(recs, work, tag, max_submit=None):
     cfg = re.sub(r"MaxSubmit = \d+", "MaxSubmit = %d" % max(nsub, max_submit or 0), cfg)
     r = vlib.tlc(SPEC_DIR, "ManifestManagerTrace", "Trace_run.cfg", workers=1, timeout=3000, deadlock=False,
                  extra_files={"Trace_run.cfg": cfg}, copy_files={"trace.ndjson": path}, heap="6g")
-    m = None
-    for m in _RE_DONE.finditer(r.out):
-        pass
-    if not r.ok or m is None or int(m.group(1)) != len(lines):
+    done = _printed(r.out, "TRACE-DONE")
+    if not r.ok or not done or done[-1]["l"] != len(lines):
         raise vlib.Inconclusive("trace validation did not run to the end of %s (%d lines): %s\n%s" % (
             tag, len(lines), r, r.out[-3000:]))
-    viols = [(int(a) - 1, p) for a, p in _RE_VIOL.findall(m.group(3))]
-    drifts = sorted(set(int(d.group(1)) - 1 for d in _RE_DRIFT.finditer(r.out)))
-    if len(drifts) != int(m.group(2)):
-        raise vlib.Inconclusive("drift count mismatch in %s: %d printed, %s counted" % (tag, len(drifts), m.group(2)))
+    viols = [(int(a) - 1, p) for a, p in done[-1]["viol"]]
+    drifts = sorted(set(d["line"] - 1 for d in _printed(r.out, "DRIFT")))
+    if len(drifts) != done[-1]["drift"]:
+        raise vlib.Inconclusive("drift count mismatch in %s: %d printed, %s counted" % (tag, len(drifts), done[-1]["drift"]))
     return [(lines[i], p) for i, p in sorted(viols)], [lines[i] for i in drifts], r
 
 
@@ -518,6 +540,11 @@ def run(pid, tier, seed, replay_path):
             found, inconc = judge_script(vh, steps, work, "s%d" % sid, cfg, given_recs=given)
             if inconc:
                 inconclusive.append(inconc)
+            firsts = {}
+            for p, r, srecs in found:
+                if p not in firsts or r["i"] < firsts[p][1]["i"]:
+                    firsts[p] = (p, r, srecs)
+            found = sorted(firsts.values(), key=lambda f: f[1]["i"])
             for p, r, srecs in found:
                 reported[p] = reported.get(p, 0) + 1
                 upto = steps[:r["i"]]
@@ -528,7 +555,12 @@ def run(pid, tier, seed, replay_path):
                                                   "trace.ndjson": "\n".join(json.dumps(x) for x in srecs) + "\n"}))
             for p in props:
                 reported[p] = reported.get(p, 0) + (0 if any(f[0] == p for f in found) else 1)
+        first_free = {}
         for r, p in fviols:
+            first_free.setdefault(p, (r, p))
+            if (r["script"], r["i"]) < (first_free[p][0]["script"], first_free[p][0]["i"]):
+                first_free[p] = (r, p)
+        for r, p in first_free.values():
             sid = r["script"]
             violations.append(vlib.Violation(PID, "free:%s:%s(%s)" % (p, r["name"], r["arg"]),
                                              "%s fails in free-running execution %s at step %d %s(%s)\nobserved: %s" % (
@@ -539,7 +571,7 @@ def run(pid, tier, seed, replay_path):
         uniq = {}
         for v in violations:
             uniq.setdefault(v.signature, v)
-        violations = sorted(uniq.values(), key=lambda v: (len(v.signature), v.signature))[:8]
+        violations = sorted(uniq.values(), key=lambda v: (v.signature.startswith("free:"), len(v.signature), v.signature))[:6]
 
         # ---- binding self-test --------------------------------------------------------------------------
         st_ok, st_res = selftest(recs, work)
@@ -571,7 +603,8 @@ def run(pid, tier, seed, replay_path):
         "configs": {"model_check": cfg["mc"], "liveness": cfg["live"], "generation": cfg["gen"]},
         "generation_classes": ginfo["states"], "generation_edges": ginfo["edges"],
         "scripts": len(scripts), "cover_scripts": ginfo["cover_scripts"], "random_walks": ginfo["walks"],
-        "allpaths_scripts": ginfo["allpaths_scripts"],
+        "allpaths_scripts": ginfo["allpaths_scripts"], "scripts_with_leases_held_at_startup": ginfo["prelease_scripts"],
+        "scripts_with_manifest_watchdog_configured": sum(1 for i in range(len(scripts)) if i % 2 == 1),
         "traces_validated_against_impl": rstats["scripts"] + fstats["runs"],
         "evaluations": rstats["steps"] + fstats["steps"],
         "free_running_runs": fstats["runs"], "free_running_steps": fstats["steps"],
